@@ -27,7 +27,23 @@ EXTRA_TB["C17"] = [
   "MySQL lexical rules for string bodies / backtick identifiers as stated in body_ok / bt_ok (backslash escapes + doubled delimiter; doubled backtick, no backslash escape)",
 ]
 
+ENGINE_TB = [
+  "engine model: Model/Ast.v, Eval.v, Exec.v, Like.v, Num.v, Join.v mirror plsql.go / sort.go / join.go / functions.go aggregates (repaired code); sqlparser's grammar is an oracle: the harness renders the query AST to fully parenthesised SQL for the real engine and to a Coq term for the model",
+  "numbers are Coq primitive floats (same IEEE-754 binary64 operations as Go's float64, computed by the VM); fmt %v of numbers per Base/Fmt.v on a stated class (else OutOfModel, counted); strings.ToLower on ASCII (generators use caseless non-ASCII runes only); regexp.QuoteMeta / '.' / '.*' semantics assumed as stated in Model/Like.v",
+  "sort.Slice is an oracle (any sorted permutation); the executable instance is a stable insertion sort; sha256 + json.Marshal fingerprint assumed injective (instance: identity + veqb)",
+]
+for _p in ("C01", "C02", "C03", "C04", "C05", "C06", "C07", "C08"):
+    EXTRA_TB[_p] = list(ENGINE_TB)
+
 ASSUME = {
+    "C03": ["grouping claims for object rows whose key values are NULL/missing, bool, string or a non-NaN number (rows_ok); arrays/objects as key values make Go's == panic (error) and are not generated",
+            "FloatEqLaws / FloatLtLaws are premises (proved from the stdlib FloatAxioms eqb_spec/ltb_spec in Proofs/C03FloatEq.v)",
+            "engine quirks mirrored, outside the property text: AVG divides by the entry count including NULLs; COUNT(col) counts NULLs; MIN/MAX start from +-MaxFloat64"],
+    "C05": ["ordering claims are made for key columns holding one scalar kind (sort_scope: vcompare is a three-way total preorder on each key column's non-NULL values; NumLaws premise for numbers, i.e. no NaN)",
+            "two rows that are both NULL on a non-final key are not ordered by the later keys (the comparator stops at the first NULL); the property mentions NULL only for a single key, the harness masks later keys of such rows",
+            "LIMIT/OFFSET literals are non-negative (the parser cannot produce others)"],
+    "C01": ["claim restricted to columns holding non-NULL values of one scalar kind matching the constants (in_scope); IS [NOT] TRUE/FALSE on NULL or a non-bool is an error in this engine, not SQL's answer",
+            "subqueries are row-scoped: a root-level table inside a subquery is addressed through `<-`"],
     "C17": [
   "a double-quoted identifier whose NAME ends in a backslash is outside the claim (the dialect spells a double quote as backslash+quote and has no spelling for a backslash before the closing quote)",
   "a backslash outside quotes that is the last byte before a quote or bracket is outside the array claim (FindArrayIndex skips the byte after any unquoted backslash); backslashes outside quotes are not SQL",
@@ -60,6 +76,8 @@ CONFIG = {
     "C15": {"shard": 1200},
     "C09": {"shard": 200},
     "C17": {"shard": 400},
+    "C01": {"shard": 120}, "C02": {"shard": 120}, "C03": {"shard": 100}, "C04": {"shard": 110},
+    "C05": {"shard": 120}, "C06": {"shard": 100}, "C07": {"shard": 100}, "C08": {"shard": 100},
 }
 
 # plug-ins: every bin/stage_*.py may define install(CONFIG, EXTRA_TB, ASSUME) to add
